@@ -253,12 +253,14 @@ func (c *stubChain) SubscribeChainHeadEvent(ch chan<- core.ChainHeadEvent) event
 	c.sub = &stubSub{err: make(chan error)}
 	return c.sub
 }
-func (c *stubChain) IsGenesisHash(hash common.Hash) bool                          { return false }
+func (c *stubChain) IsGenesisHash(hash common.Hash) bool                           { return false }
 func (c *stubChain) CheckIfEtxIsEligible(hash common.Hash, l common.Location) bool { return true }
 func (c *stubChain) Engine(header *types.WorkObjectHeader) consensus.Engine        { return nil }
-func (c *stubChain) GetHeaderOrCandidateByHash(h common.Hash) *types.WorkObject    { return c.GetBlockByHash(h) }
-func (c *stubChain) NodeCtx() int                                                  { return common.ZONE_CTX }
-func (c *stubChain) GetHeaderByHash(h common.Hash) *types.WorkObject               { return c.GetBlockByHash(h) }
+func (c *stubChain) GetHeaderOrCandidateByHash(h common.Hash) *types.WorkObject {
+	return c.GetBlockByHash(h)
+}
+func (c *stubChain) NodeCtx() int                                    { return common.ZONE_CTX }
+func (c *stubChain) GetHeaderByHash(h common.Hash) *types.WorkObject { return c.GetBlockByHash(h) }
 func (c *stubChain) GetBlockByHash(h common.Hash) *types.WorkObject {
 	c.mu.RLock()
 	defer c.mu.RUnlock()
@@ -272,12 +274,14 @@ func (c *stubChain) eventCh() chan<- core.ChainHeadEvent {
 	defer c.mu.RUnlock()
 	return c.headCh
 }
-func (c *stubChain) GetMaxTxInWorkShare() uint64                                 { return c.maxTxWS }
-func (c *stubChain) CheckInCalcOrderCache(common.Hash) (*big.Int, int, bool)     { return nil, 0, false }
-func (c *stubChain) AddToCalcOrderCache(common.Hash, int, *big.Int)              {}
-func (c *stubChain) CalcBaseFee(wo *types.WorkObject) *big.Int                   { return wo.BaseFee() }
-func (c *stubChain) CalcOrder(*types.WorkObject) (*big.Int, int, error)          { return big.NewInt(0), common.ZONE_CTX, nil }
-func (c *stubChain) setHead(b *blockRec)                                         { c.head.Store(b) }
+func (c *stubChain) GetMaxTxInWorkShare() uint64                             { return c.maxTxWS }
+func (c *stubChain) CheckInCalcOrderCache(common.Hash) (*big.Int, int, bool) { return nil, 0, false }
+func (c *stubChain) AddToCalcOrderCache(common.Hash, int, *big.Int)          {}
+func (c *stubChain) CalcBaseFee(wo *types.WorkObject) *big.Int               { return wo.BaseFee() }
+func (c *stubChain) CalcOrder(*types.WorkObject) (*big.Int, int, error) {
+	return big.NewInt(0), common.ZONE_CTX, nil
+}
+func (c *stubChain) setHead(b *blockRec) { c.head.Store(b) }
 func (c *stubChain) register(parent *blockRec, st [nAcc]acctState, txs []*types.Transaction, gl uint64, bf int64) *blockRec {
 	c.mu.Lock()
 	defer c.mu.Unlock()
